@@ -11,7 +11,7 @@ CHECKS = {
         'level_text': 'Unbounded deductive proof (Verus) on the verbatim text of Module::assign_api_bindings and its nested process_definition: for every module '
                       'and every declaration sequence each bound resource gets api slot = sum of the needed lengths of the earlier declarations of its group '
                       '(so ranges start at zero, follow declaration order, have no gaps and cannot overlap), buffer addresses get 8-byte offsets in the inline block, '
-                      'unbound declarations get nothing, and nothing else in the module changes.',
+                      'unbound declarations get nothing, and nothing else in the module changes. The parameters compile() selects per target (Metal slot counting exactly on Metal, buffer addresses only on request on Vulkan, static samplers take a slot on the HLSL targets, register classes on DirectX only) are proved on the initialiser expression of `binding_params` (wrapped as a function, rewrite X6).',
         'level_note': 'Assumed: TypeRegistry::get_type_layer returns layers[id] (RefCell), TypeLayer::is_object and ObjectType::get_register_type contracts, '
                       'std models of HashMap consuming iteration and slice sort, derived Clone = identity. Machine-arithmetic side conditions are preconditions, not proved of the typer: '
                       'array lengths and per-group totals < 2^28, each declaration listed once, type registry well-formed. Rewrites N1 (or-pattern+guard split), N3 (mut self), '
